@@ -23,7 +23,7 @@ ASSUMPTIONS = [
     "numpy argsort: the stable sorting permutation (numpy's default introsort is an insertion sort below 16 elements, and all shapes are smaller; kind='stable' likewise); np.unique: sorted distinct values; concatenate/boolean-mask assignment/vander/hstack by their documented semantics",
     "velocities are used as pairwise-distinct labels to identify observations (no code under test branches on a velocity)",
     "all input cells finite; sources without covariance matrices (a covariance source must raise: asserted in C18)",
-    "bounds: <= 3 surveys, <= 4 epochs in total (quick), <= 3 surveys of <= 3 epochs with total <= 6 (thorough); poly_trend <= 3",
+    "bounds: <= 3 surveys, <= 4 epochs in total (quick), <= 3 surveys of <= 3 epochs with total <= 6 (thorough); poly_trend <= 3; plus one shape of 11 (12) single-epoch surveys with epochs increasing in input order",
 ]
 
 
@@ -41,12 +41,15 @@ def shapes(tier):
     for sz in sizes:
         for kind in ("list", "dict", "dict_rev"):
             out.append({"sizes": list(sz), "input": kind, "poly_trend": 1 + (sum(sz) + len(kind)) % 3, "mixed_units": kind != "list"})
+    # labels whose numeric and textual orders differ: integer dict keys of different widths, and > 10 list sources
+    out.append({"sizes": [1, 2, 1], "input": "dict_int", "poly_trend": 1, "mixed_units": False})
+    out.append({"sizes": [1] * (11 if tier == "quick" else 12), "input": "list", "poly_trend": 1, "mixed_units": False, "ordered": True})
     out.append({"sizes": [2], "input": "single", "poly_trend": 2, "mixed_units": False})
     out.append({"sizes": [3], "input": "single", "poly_trend": 3, "mixed_units": False})
     return out
 
 
-_KEYS = {"list": None, "dict": ["apogee", "lamost", "zgaia"], "dict_rev": ["zeta", "mid", "alpha"]}
+_KEYS = {"list": None, "dict": ["apogee", "lamost", "zgaia"], "dict_rev": ["zeta", "mid", "alpha"], "dict_int": [10, 9, 100]}
 
 
 def _mk(shape, st, RVData):
@@ -63,6 +66,11 @@ def _mk(shape, st, RVData):
                    units.Quantity(symnp.SymArray(symnp._obj(err), symnp._F8), un))
         srcs.append(d)
         cells.append((t, rv, err, un))
+    if shape.get("ordered"):
+        # many small surveys: epochs strictly increasing across the sources in input order (one sorting permutation)
+        flat = [x for c in cells for x in c[0]]
+        for a, b in zip(flat, flat[1:]):
+            core.assume(a < b)
     return srcs, cells
 
 
@@ -182,7 +190,7 @@ def _spec(sink, path, shape, cells, keys, all_data, ids, trend_M, res):
     col_of = {}
     if shape["input"] == "list":
         col_of = {k: (k if k >= 1 else None) for k in range(K)}
-    elif shape["input"] in ("dict", "dict_rev"):
+    elif shape["input"] in ("dict", "dict_rev", "dict_int"):
         # any fixed one-to-one assignment is fine; the code's is by sorted key (np.unique)
         order = sorted(range(K), key=lambda k: keys[k])
         col_of = {k: (order.index(k) if order.index(k) >= 1 else None) for k in range(K)}
